@@ -126,6 +126,14 @@ def campaign(c):
             if txt.count('|') < 2 and ln > 4: continue
             want = pydecode(txt)
             expect_value(c, '"%s"' % txt, ('str:' + sh_hex(want)) if want is not None else None)
+    # non-ASCII characters inside and outside hex sections: every code point class whose LOW BYTE or NFKC folding is a hex digit,
+    # a separator or the pipe (U+01xx 'İıŁłšŢ', CJK U+4E30, fullwidth digits/letters/pipe, Arabic-Indic digits, NBSP, ...)
+    odd = ['İ', 'ı', 'Ł', 'ł', 'š', 'Ţ', '丰', '丱', '４', 'Ａ', 'ｆ', '｜', '٣', '\u00a0', '\u2007', 'é', 'ſ', 'µ', 'Å', '¼', '\u017c', '\u0230', '\u0141\u0131']
+    for ch in odd:
+        for tmpl in ('"|%s1|"', '"|4%s|"', '"x|%s%s|y"', '"|%s|"', '"%s|00|"', '"|00|%s"', '"|0%s0|"', '"|00 %s 11|"', '"%s"'):
+            txt = (tmpl % ((ch,) * tmpl.count('%s')))[1:-1]
+            want = pydecode(txt)
+            expect_value(c, '"%s"' % txt, ('str:' + sh_hex(want)) if want is not None else None)
     for i in range(300 if c.quick else 6000):
         r = c.rng.fork('ms%d' % i)
         parts = []
